@@ -346,6 +346,11 @@ func goBuild(tree, out string, race bool) string {
 		}
 		args = append(args, "-race", "-overlay", ov)
 	}
+	if os.Getenv("SIMCOVER") != "" {
+		// Development aid: statement coverage of the code under test by a check
+		// (GOCOVERDIR=$SIMCOVER is inherited by the workers).
+		args = append(args, "-cover")
+	}
 	args = append(args, "-o", out, "./zzsim/harness")
 	cmd := exec.Command("go", args...)
 	cmd.Dir = tree
